@@ -30,6 +30,16 @@ constexpr bool operator<(int a, HKey b) { return a < b.v; }
 constexpr bool operator>(HKey a, int b) { return a.v > b; }
 constexpr bool operator>(int a, HKey b) { return a > b.v; }
 
+// heterogeneous *band* key: stands for the two adjacent integers v and v + 1, so that a lookup key is equivalent to up to two
+// elements of a set of distinct integers ([associative.reqmts]: the elements only have to be partitioned w.r.t. the key)
+struct BKey {
+    int v;
+};
+constexpr bool operator<(BKey a, int b) { return a.v + 1 < b; }
+constexpr bool operator<(int a, BKey b) { return a < b.v; }
+constexpr bool operator>(BKey a, int b) { return a.v > b; }
+constexpr bool operator>(int a, BKey b) { return a > b.v + 1; }
+
 // a strict weak order whose equivalence is coarser than ==: integers ordered by k / 2
 struct half_less {
     constexpr bool operator()(int a, int b) const { return a / 2 < b / 2; }
@@ -224,7 +234,8 @@ struct SessionT final : Session {
     std::string step(Line const& l) override
     {
         auto const& op = l.op;
-        bool het       = l.i("het", 0) == 1;
+        bool band      = l.i("het", 0) == 2;
+        bool het       = l.i("het", 0) == 1 || band;
         bool cst       = l.i("cst", 0) == 1;
         S& s           = *cur;
         S const& cs    = *cur;
@@ -397,9 +408,15 @@ struct SessionT final : Session {
             std::string a, b;
             if (het) {
                 if constexpr (transparent) {
-                    HKey hk{k};
-                    a = cst ? f_e(cs, hk) : f_e(s, hk);
-                    b = f_s(scur, hk);
+                    if (band) {
+                        BKey hk{k};
+                        a = cst ? f_e(cs, hk) : f_e(s, hk);
+                        b = f_s(scur, hk);
+                    } else {
+                        HKey hk{k};
+                        a = cst ? f_e(cs, hk) : f_e(s, hk);
+                        b = f_s(scur, hk);
+                    }
                 }
             } else {
                 int const& ref = k;
